@@ -186,6 +186,7 @@ var c13hand = []string{
 	"a:b c := d", "{a = b + c; d}", "(quote x) %y ^(a ~b ~@c)", "'c' '\\n' \"q\\\"r\"", "(a <= b) (c >= d) (e != f) (g -> h)", "x.y.z .w", "(- 5) -5 - 5 a-b a -b",
 	"{a: 1 \"b\": [1, 2]}", "[1 2 3] (hash k: 1)", "0x1F 0o7 0b1 12ULL 1_000", "(f)(g)", "&& || ! **", "/* open", "\"open", "`open", "(open", "[1 {2", "~x ~@y ~(f 1)",
 	"(a \\ -", "(a \\ b", "(a \\", "(a \\ b)", "/* x **/ 1", "/** doc **/ (f)", "{\"k\": 1}", "{\"s\"s\"", "% ", "(f %", "- Inf", "-Inf +Inf", "(list - Inf)",
+	"\"a\\nb\" \"q\\\\\"", "'\\n' '\\''", "(f \"x\\ty\")", "\"tab\\there\"",
 }
 
 var c13alphabet = []string{"(", ")", "[", "]", "{", "}", "a", "1", "-1", "1e", "0x1", `"s"`, `"s`, "'c'", "`r`", "`", ":", "a:", ":=", "=", ".a", "a.b", "%", "^", "~", "~@", ";", ",", "+", "-", "/", "/*", "*/", "//", "#", "&", "\\", "$", "1e-3", "-"}
@@ -265,7 +266,12 @@ func c13text(c *engine.Ctx, env *zygo.Zlisp, text string, twoCuts bool) {
 			continue
 		}
 		if got.pauses == 0 {
-			continue // the prefix was a complete text: judged by the prefix clause when that prefix is a text of its own
+			// the parser took the prefix for a complete text. If the prefix of this (valid) text
+			// ends inside a bracket, string, raw string or block comment it had to ask for more.
+			if open, unknown := r8open(a); open && !unknown && whole.kind == "ok" {
+				viol("no-pause-on-unfinished-prefix", fmt.Sprintf("text %q parses fine as a whole; its prefix %q is unfinished, but the parser returned %s %s instead of asking for more input", text, a, got.kind, got.errTxt))
+			}
+			continue
 		}
 		if got.kind != whole.kind || (got.exprs != whole.exprs && whole.kind == "ok") {
 			viol("chunking", fmt.Sprintf("text %q cut at rune %d (%q | %q): pieces give %s [%s] %s, whole gives %s [%s] %s", text, i, a, b, got.kind, got.exprs, got.errTxt, whole.kind, whole.exprs, whole.errTxt))
@@ -291,7 +297,8 @@ func c13text(c *engine.Ctx, env *zygo.Zlisp, text string, twoCuts bool) {
 
 // ---- histories: earlier parses must not change how a later text is read
 
-var c13residue = []string{`"abc`, "`raw", "/* open", "1e", "-", "a:", "~", "(+ 1 2)", ")", "(open 1", "'", "(+ 1 2) -", "ok 1 2", "", "#", "1e-", "x -1", "/"}
+var c13residue = []string{`"abc`, "`raw", "/* open", "1e", "-", "a:", "~", "(+ 1 2)", ")", "(open 1", "'", "(+ 1 2) -", "ok 1 2", "", "#", "1e-", "x -1", "/",
+	"(def x [1 2", "((", "(a /* c", "(f {a b", "[[1] [2", "(a \"s"}
 var c13probes = []string{"-1 ", "1e-3 ", "a:b ", "(list -1 2)", "~x ", "- 1 ", "(a -1)", "x:=1 ", "1 -1 ", "/ 2 "}
 
 func c13history(c *engine.Ctx, hist []int, record bool) string {
@@ -338,7 +345,7 @@ func init() {
 		Level: "fault_enumeration",
 		Rule: "texts = the 110 corpus scripts + a hand list + every string of <=3 (thorough 4) tokens over a 40-token alphabet joined with and without blanks; for every text: whole parse, parse with a trailing newline, " +
 			"pause-iff-unfinished against an independent prefix scanner, every 1-cut (all rune positions) and, for texts <=60 runes (thorough 200), every 2-cut, pieces delivered only when the parser pauses (REPL protocol); " +
-			"plus BFS over histories of 18 residue-leaving inputs (depth 3, thorough 4) with 10 probe texts compared against a fresh interpreter, states keyed by the lexer/parser residue; distinct_nontrivial = distinct (result kind, expression list) of texts",
+			"plus BFS over histories of 24 residue-leaving inputs (depth 3, thorough 4) with 10 probe texts compared against a fresh interpreter, states keyed by the lexer/parser residue; distinct_nontrivial = distinct (result kind, expression list) of texts",
 		Assumptions: []string{"a cut at which the parser does not pause is a complete prefix and is judged as a text of its own, not by the chunking clause",
 			"pause-iff is not judged for texts ending inside a character literal or with mismatched brackets, nor for texts that raise a hard error"},
 		Run: func(c *engine.Ctx) {
